@@ -24,6 +24,7 @@ class QuaHitList(HitList[QuaHit], QuaNoteList[QuaHit]):
         )
         df.offset = df.offset.fillna(0)
         df.column = df.column.fillna(0)
+        df.keysounds = df.keysounds.apply(lambda k: k if isinstance(k, list) else [])
         return QuaHitList(df)
 
     def to_yaml(self):
